@@ -3,7 +3,7 @@
     proxy.go, tls_hello_conn.go and netutil/join_conn.go (Gen/StreamConsts.v). *)
 From Coq Require Import List NArith Bool String Lia.
 From Verif Require Import Lib.Bytes Sni.Wire Sni.WireProofs Sni.WireGen Gen.WireSchema.
-From Verif Require Import Sni.Hello Sni.Stream Gen.StreamConsts Gen.HelloConsts.
+From Verif Require Import Sni.Hello Sni.Stream Sni.StreamClose Gen.StreamConsts Gen.HelloConsts.
 Import ListNotations.
 Local Open Scope N_scope.
 
@@ -23,6 +23,13 @@ Proof. vm_compute. discriminate. Qed.
 
 Lemma gen_hello_cap_ge5 : 5 <= gen_hello_buf_size.
 Proof. vm_compute. discriminate. Qed.
+
+(** JoinConn closes both connections as soon as either copy loop returns:
+    the hypothesis of the close theorems (Sni/StreamClose.v). *)
+Definition gen_close_policy : policy := close_policy_of gen_join_defer_calls gen_closeall_calls.
+
+Lemma gen_close_policy_both : gen_close_policy = CloseBoth.
+Proof. reflexivity. Qed.
 
 Local Open Scope string_scope.
 
